@@ -39,4 +39,6 @@ RULES = [
      fitclauses.clause_minimize_inputs),
     ("C01-R4", "shipped model functions evaluate their documented formula",
      r4_models),
+    ("C01-R5", "contact-point relative fits start from a full-segment "
+     "estimate of the contact point", fitclauses.clause_relative_cp),
 ]
